@@ -630,6 +630,11 @@ func (a *poe) edge(fn *ssa.Function, b *ssa.BasicBlock, st poeState, i int) (poe
 		st.prog = true
 		return st, true
 	}
+	// the side of a sticky-error test on which an error is recorded
+	if ne, ok := a.f.isErrNilTest(cd.V); ok && ne == cd.True {
+		st.prog = true
+		return st, true
+	}
 	bo, ok := cd.V.(*ssa.BinOp)
 	if !ok || (bo.Op != token.EQL && bo.Op != token.NEQ) {
 		return st, true
